@@ -86,6 +86,10 @@ var sites = []site{
 	// tuneGasFeeByHeight
 	{Name: "tune_active", Func: "tuneGasFeeByHeight", Loc: "cond:height > gasTuneheight", Vars: []string{"height", "tuneHeight"}, Bool: true,
 		Subst: map[string]string{"height": "height", "gasTuneheight": "tuneHeight"}},
+	{Name: "tune_round_zero", Func: "tuneGasFeeByHeight", Loc: "cond:gasRound == 0", Vars: []string{"round"}, Bool: true,
+		Subst: map[string]string{"gasRound": "round"}},
+	{Name: "tune_zero_ret", Func: "tuneGasFeeByHeight", Loc: "return:0#0", Vars: []string{"gas", "cur"},
+		Subst: map[string]string{"gas": "gas", "curBalance": "cur"}},
 	{Name: "tune_t", Func: "tuneGasFeeByHeight", Loc: "assign:t", Vars: []string{"gas", "round"},
 		Subst: map[string]string{"gas": "gas", "gasRound": "round"}},
 	{Name: "tune_overflow", Func: "tuneGasFeeByHeight", Loc: "cond:gas > math.MaxUint64-gasRound", Vars: []string{"gas", "round"}, Bool: true,
